@@ -7,17 +7,18 @@
 //   basis  M : p = mh mH mA mHp sin(beta-alpha) lambda6 lambda7 tan(beta) m12^2
 //          G : p = lambda1 .. lambda7 tan(beta) m12^2
 //   ytype  1..6 (I, II, X, Y, aligned, general)
-//   run    0|1  thdm::Config::running_couplings
+//   run    thdm::Config as bits: 1 = running_couplings, 2 = force_output  (0..3)
 //   ckm    0 unit | 1 SM default | 2 complex Wolfenstein(0.2257,0.814,0.135,0.349)
 //   mhsm   '-' (SM default) | 'auto' (construct once, SM::set_mh(model.get_Mhh(0)),
 //          construct again) | hex float
 //   sm     '-' (gm2calc::SM defaults) | comma separated key=hexfloat overrides of the SM input:
 //          mw mz aem (alpha_em(MZ)) ae0 (alpha_em(0)) as (alpha_s(MZ)) mu0 mu1 mu2 md0 md1 md2 ml0 ml1 ml2
 //   matrices: '0' or nine comma separated hex floats (row major)
-//   ops    subset of S (spectrum/getters), A (a_mu), T (individual terms of a_mu,
+//   ops    <blocks>[@tb1[,tb2..]]: after construction model.set_tan_beta(tb1), set_tan_beta(tb2), .. are applied
+//          (the object state is part of the alphabet), then the blocks are printed; blocks = subset of S (spectrum/getters), A (a_mu), T (individual terms of a_mu,
 //          used only as the scale "sum of |terms|" of tolerances), Y (12 Yukawa getters)
 //
-//   result: R <id> OK [S 95 v..] [A 4 v..] [T 17 v..] [Y 216 v..]
+//   result: R <id> OK [S 96 v..] [A 4 v..] [T 17 v..] [Y 216 v..]
 //           R <id> EXC <class> <what>
 //   all doubles as C99 hex floats.  Last line: END <ncases> <nok> <nexc>.
 //   'hello' prints the layout version.  Nothing is random; nothing is cached.
@@ -94,6 +95,7 @@ std::string clean(const char* s)
 
 struct Case {
    std::string id, ops, mhsm, smspec;
+   std::vector<double> post;   ///< arguments of the set_tan_beta calls applied after construction
    char basis{'M'};
    int ytype{2}, run{1}, ckm{1};
    double p[9]{};
@@ -136,8 +138,8 @@ SM make_sm(int ckm, const std::string& spec)
 THDM build(const Case& c, const SM& sm)
 {
    thdm::Config cfg;
-   cfg.running_couplings = c.run != 0;
-   cfg.force_output = false;
+   cfg.running_couplings = (c.run & 1) != 0;
+   cfg.force_output = (c.run & 2) != 0;
    if (c.basis == 'M') {
       thdm::Mass_basis b;
       b.yukawa_type = thdm::int_to_cpp_yukawa_type(c.ytype);
@@ -163,7 +165,7 @@ THDM build(const Case& c, const SM& sm)
 void block_S(std::string& o, const THDM& m)
 {
    const SM& sm = m.get_sm();
-   o += " S 95";
+   o += " S 96";
    out(o, m.get_Mhh(0)); out(o, m.get_Mhh(1));                 // 0,1
    out(o, m.get_MAh(0)); out(o, m.get_MAh(1));                 // 2,3
    out(o, m.get_MHm(0)); out(o, m.get_MHm(1));                 // 4,5
@@ -197,6 +199,7 @@ void block_S(std::string& o, const THDM& m)
    out(o, m.get_MVG()); out(o, m.get_MVP());                   // 90,91
    out(o, sm.get_alpha_em_mz()); out(o, sm.get_alpha_s_mz());  // 92,93
    out(o, m.get_alpha_em());                                   // 94
+   out(o, m.get_problems().have_problem() ? 1.0 : 0.0);        // 95 (only reachable with force_output)
 }
 
 void block_A(std::string& o, const THDM& m)
@@ -305,7 +308,9 @@ void evaluate(const Case& c, std::string& o)
    } else if (c.mhsm != "-") {
       sm.set_mh(hx(c.mhsm));
    }
-   const THDM m = build(c, sm);
+   THDM m = build(c, sm);
+   // optional post-construction operation sequence: THDM's only public mutator, set_tan_beta(tb1)[, (tb2) ...]
+   for (double tb : c.post) { m.set_tan_beta(tb); }
    for (char op : c.ops) {
       switch (op) {
       case 'S': block_S(o, m); break;
@@ -328,7 +333,7 @@ int main()
    std::string o;
    while (std::getline(std::cin, line)) {
       if (line.empty()) { continue; }
-      if (line == "hello") { std::cout << "THDM-HARNESS 3 S95 A4 T17 Y216\n"; continue; }
+      if (line == "hello") { std::cout << "THDM-HARNESS 5 S96 A4 T17 Y216\n"; continue; }
       std::vector<std::string> tk;
       {
          std::stringstream ss(line);
@@ -356,6 +361,13 @@ int main()
          for (int i = 0; i < 3; ++i) { c.D[i] = mat(tk[19 + i]); }
          for (int i = 0; i < 3; ++i) { c.P[i] = mat(tk[22 + i]); }
          c.ops = tk[25];
+         const auto at = c.ops.find('@');
+         if (at != std::string::npos) {
+            std::stringstream ps(c.ops.substr(at + 1));
+            std::string t;
+            while (std::getline(ps, t, ',')) { c.post.push_back(hx(t)); }
+            c.ops = c.ops.substr(0, at);
+         }
       } catch (const Bad& b) {
          std::cout << "ERR " << b.what << " in: " << line << '\n';
          return 3;
